@@ -323,6 +323,43 @@ def run(ctx):
                 exp = f"{f} ({os.path.join(r2, nm)}) = {rt.digest(f, mtree[nm])}"
                 if exp not in x.out:
                     fails.append({"what": f"`hash -h {f}` prints {x.out.strip()[-120:]!r}, expected {exp[-120:]!r}", "replay": {"entry": "hash", "fmt": f, "file": nm, "size": len(mtree[nm]), "seed": ctx.seed}})
+        # ---- the hash command given -h more than once (whatever it makes of that): every line it prints carries the
+        # digest of the format it names; and the digests that flatten carries over from several generations
+        import re as _re
+        for hs in (["sha1", "md5"], ["xxh64", "c4", "md5"], ["md5", "md5"]):
+            a_ = [os.path.join(r2, "one.bin")]
+            for h_ in hs:
+                a_ += ["-h", h_]
+            x = rt.run("hash", a_)
+            evals += 1
+            lines = _re.findall(r"^(\w+) \((.*)\) = (\S+)$", x.out, _re.M)
+            if x.exit != 0 or not lines:
+                fails.append({"what": f"`hash {' '.join('-h ' + h_ for h_ in hs)}` exits {x.exit} and prints {x.out.strip()[-100:]!r}", "replay": {"entry": "hash", "fmts": hs}})
+            for f_, _, dg in lines:
+                if f_ in CLI_FORMATS and dg != rt.digest(f_, mtree["one.bin"]):
+                    fails.append({"what": f"`hash {' '.join('-h ' + h_ for h_ in hs)}` prints {f_} = {dg}, the {f_} digest of the file is {rt.digest(f_, mtree['one.bin'])}", "replay": {"entry": "hash", "fmts": hs, "fmt": f_}})
+        r3 = os.path.join(d, "flat")
+        ftree = {"a.bin": b"alpha" * 50, "s/b.bin": b"beta" * 500, "e.bin": b""}
+        rt.mk(r3, ftree)
+        for k_, fm_ in enumerate((["xxh64"], ["md5"], ["sha1", "c4"], ["xxh3", "xxh128", "md5"])):
+            a_ = [r3]
+            for h_ in fm_:
+                a_ += ["-h", h_]
+            rt.run("create", a_, "2026-03-01 12:10:%02d" % k_)
+        dest = os.path.join(d, "flat_dest")
+        os.makedirs(dest)
+        x = rt.run("flatten", [r3, dest], "2026-03-01 12:11:00")
+        evals += 1
+        pls = glob.glob(os.path.join(dest, "*", "*.mhl"))
+        if x.exit != 0 or len(pls) != 1:
+            fails.append({"what": f"flatten of a history with six formats over four generations exits {x.exit}, packing lists {pls}", "replay": {"entry": "flatten"}})
+        else:
+            for rec in rt.read_manifest(pls[0])["records"]:
+                for e_ in rec["entries"]:
+                    if rec["path"] in ftree and e_["digest"] != rt.digest(e_["fmt"], ftree[rec["path"]]):
+                        fails.append({"what": f"the packing list records {e_['fmt']} of {rec['path']} as {e_['digest']}, standard digest {rt.digest(e_['fmt'], ftree[rec['path']])}", "replay": {"entry": "flatten", "path": rec["path"], "fmt": e_["fmt"]}})
+                if rec["path"] in ftree and {e_["fmt"] for e_ in rec["entries"]} != set(CLI_FORMATS):
+                    fails.append({"what": f"the packing list records {rec['path']} with formats {sorted(e_['fmt'] for e_ in rec['entries'])}, the history holds all six", "replay": {"entry": "flatten", "path": rec["path"]}})
     # ---- (c)/(d) codecs: implementation vs model vs independent reference
     n_c4 = ctx.scale(2000, 200000)
     vals = boundary_values() + [rnd.getrandbits(512) for _ in range(n_c4 // 2)] + [rnd.getrandbits(rnd.randint(1, 511)) for _ in range(n_c4 // 2)]
